@@ -34,6 +34,9 @@ class Tr:
         self.tree = tree
         self.funcs = {n.name: n for n in tree.body if isinstance(n, ast.FunctionDef)}
         self.degree_vars = set()
+        self.ndim = None            # 1 / 2: which branch of `X.ndim == 2` is translated (Normalizer)
+        self.self_attrs = ()        # extra self.<attr> names readable as variables
+        self.shape_of_self = None   # variable whose shape is self.shape
         self.want = dict(DIFFUSION_IMPORTS if want is None else want)
         self._check_imports()
 
@@ -72,7 +75,8 @@ class Tr:
         if isinstance(e, ast.Name):
             return e.id
         if isinstance(e, ast.Attribute) and isinstance(e.value, ast.Name) and e.value.id == 'self' \
-                and e.attr in ('n_iter', 'damping_factor', 'labels_', 'labels_row_', 'labels_col_', 'a', 'b', 'restart'):
+                and (e.attr in ('n_iter', 'damping_factor', 'labels_', 'labels_row_', 'labels_col_', 'a', 'b', 'restart')
+                     or e.attr in self.self_attrs):
             return 'self.' + e.attr
         return None
 
@@ -112,8 +116,15 @@ class Tr:
                 and not isinstance(e.comparators[0].value, bool):
             return '(XGe0 %s)' % self.expr(e.left)
         if isinstance(e, ast.Subscript) and isinstance(e.value, ast.Attribute) and e.value.attr == 'shape' \
-                and isinstance(e.slice, ast.Constant) and e.slice.value == 0 and not isinstance(e.slice.value, bool):
-            return '(XLen %s)' % self.expr(e.value.value)
+                and isinstance(e.slice, ast.Constant) and e.slice.value in (0, 1) and not isinstance(e.slice.value, bool):
+            base = e.value.value
+            if isinstance(base, ast.Name) and base.id == 'self':
+                if self.shape_of_self is None:
+                    raise TranslateError('self.shape is not known here')
+                inner = '(XVar %s)' % _cstr(self.shape_of_self)
+            else:
+                inner = self.expr(base)
+            return '(%s %s)' % ('XLen' if e.slice.value == 0 else 'XLenCols', inner)
         if isinstance(e, ast.Attribute) and e.attr == 'T':
             return '(XT %s)' % self.expr(e.value)
         if isinstance(e, ast.Call):
@@ -142,6 +153,18 @@ class Tr:
                 return '(XCopy %s)' % self.expr(m[0])
             if m and isinstance(m[1][0], ast.Name) and m[1][0].id == 'bool':
                 return '(XAsBool %s)' % self.expr(m[0])
+            if isinstance(f, ast.Name) and f.id == 'diagonal_pseudo_inverse' and 'diagonal_pseudo_inverse' in self.want \
+                    and len(e.args) == 1 and not e.keywords:
+                return '(XPinvDiag %s)' % self.expr(e.args[0])
+            if self.is_call(e, 'np', 'outer', 2):
+                return '(XOuter %s %s)' % (self.expr(e.args[0]), self.expr(e.args[1]))
+            for attr, node in (('mean', 'XMeanAxis0'), ('sum', 'XSumAxis0')):
+                if isinstance(f, ast.Attribute) and f.attr == attr and not e.args and len(e.keywords) == 1 \
+                        and e.keywords[0].arg == 'axis' and isinstance(e.keywords[0].value, ast.Constant) and e.keywords[0].value.value == 0:
+                    return '(%s %s)' % (node, self.expr(f.value))
+            m = self.method(e, 'mean')
+            if m and not isinstance(m[0], ast.Subscript):
+                return '(XMean %s)' % self.expr(m[0])
             m = self.method(e, 'diagonal')
             if m:
                 return '(XDiagonal %s)' % self.expr(m[0])
@@ -233,6 +256,8 @@ class Tr:
             return final()
         s, rest = stmts[0], stmts[1:]
         nxt = lambda: self.block(rest, final)
+        if isinstance(s, ast.Return) and not rest and s.value is not None and not isinstance(s.value, ast.Tuple):
+            return self.expr(s.value)
         # x, y = init_temperatures(a, b): inline
         if isinstance(s, ast.Assign) and len(s.targets) == 1 and isinstance(s.targets[0], ast.Tuple) \
                 and isinstance(s.value, ast.Call) and isinstance(s.value.func, ast.Name) and s.value.func.id in self.funcs:
@@ -270,6 +295,33 @@ class Tr:
                         raise TranslateError('parameter / argument capture in ' + ast.unparse(s))
                     inner = '(XLet %s (XVar %s) %s)' % (_cstr(p), _cstr(a), inner)
             return inner
+        if isinstance(s, ast.If) and isinstance(s.test, ast.Compare) and len(s.test.ops) == 1:
+            t = s.test
+            # if X.ndim == 2: A else: B   -> the branch of the variant being generated
+            if isinstance(t.ops[0], ast.Eq) and isinstance(t.left, ast.Attribute) and t.left.attr == 'ndim' \
+                    and isinstance(t.comparators[0], ast.Constant) and t.comparators[0].value == 2 and self.ndim in (1, 2):
+                return self.block(self.strip(s.body if self.ndim == 2 else s.orelse) + rest, final)
+            # if c > 0: <updates of one variable x>   ->   x = (XIfPos c <x after the body> x)
+            if isinstance(t.ops[0], ast.Gt) and isinstance(t.comparators[0], ast.Constant) and t.comparators[0].value == 0 \
+                    and not isinstance(t.comparators[0].value, bool) and not s.orelse and self.name_of(t.left) is not None:
+                body = self.strip(s.body)
+
+                def targets(stmts):
+                    out = set()
+                    for q in stmts:
+                        if isinstance(q, ast.If):
+                            out |= targets(self.strip(q.body)) | targets(self.strip(q.orelse))
+                        else:
+                            out.add(self.assign_target(q))
+                    return out
+                tg = targets(body)
+                read_later = self.names_read(rest)
+                live = {x for x in tg if x in read_later}
+                if None in tg or len(live) != 1:
+                    raise TranslateError('an `if c > 0` block must update exactly one variable used afterwards: %r' % sorted(map(str, tg)))
+                x = live.pop()
+                inner = self.block(body, lambda: '(XVar %s)' % _cstr(x))
+                return '(XLet %s (XIfPos (XVar %s) %s (XVar %s)) %s)' % (_cstr(x), _cstr(self.name_of(t.left)), inner, _cstr(x), nxt())
         if isinstance(s, ast.If):
             t = s.test
             if isinstance(t, ast.Compare) and len(t.ops) == 1 and isinstance(t.ops[0], ast.Is) and isinstance(t.left, ast.Name) \
@@ -558,3 +610,72 @@ def gen_nprso():
 
 
 FILES['NpRso.v'] = gen_nprso
+
+
+# ---------------------------------------------------------------------------------------------------------------------
+# linalg/operators.py: Normalizer (C15)
+# ---------------------------------------------------------------------------------------------------------------------
+OREL = 'sknetwork/linalg/operators.py'
+OPS_IMPORTS = {'diagonal_pseudo_inverse': 'sknetwork.linalg', 'normalize': 'sknetwork.linalg.normalizer'}
+
+
+def gen_npnormalizer():
+    tree = ast.parse(_src(OREL))
+    cls = [n for n in tree.body if isinstance(n, ast.ClassDef) and n.name == 'Normalizer']
+    if len(cls) != 1:
+        raise TranslateError('Normalizer not found')
+    meths = {m.name: m for m in cls[0].body if isinstance(m, ast.FunctionDef)}
+    if set(meths) != {'__init__', '_matvec', '_rmatvec'}:
+        raise TranslateError('unexpected methods of Normalizer: %r' % sorted(meths))
+    init = meths['__init__']
+    if [a.arg for a in init.args.args] != ['self', 'adjacency', 'regularization']:
+        raise TranslateError('unexpected signature of Normalizer.__init__')
+    body = Tr.strip(init.body)
+    want0 = ['if adjacency.ndim == 1:\n    adjacency = adjacency.reshape(1, -1)',
+             'super(Normalizer, self).__init__(dtype=float, shape=adjacency.shape)']
+    if [ast.unparse(x) for x in body[:2]] != want0:
+        raise TranslateError('unexpected start of Normalizer.__init__')
+    attrs = ('regularization', 'adjacency', 'norm_diag')
+    pre = []
+    for s_ in body[2:]:
+        if isinstance(s_, ast.Assign) and len(s_.targets) == 1 and isinstance(s_.targets[0], ast.Attribute) \
+                and isinstance(s_.targets[0].value, ast.Name) and s_.targets[0].value.id == 'self':
+            if s_.targets[0].attr not in attrs:
+                raise TranslateError('unexpected attribute self.%s' % s_.targets[0].attr)
+            pre.append(('self.' + s_.targets[0].attr, s_.value))
+        elif isinstance(s_, ast.Assign) and len(s_.targets) == 1 and isinstance(s_.targets[0], ast.Name):
+            pre.append((s_.targets[0].id, s_.value))
+        else:
+            raise TranslateError('unsupported statement in Normalizer.__init__: ' + ast.unparse(s_))
+    if {k for k, _ in pre if k.startswith('self.')} != {'self.' + a for a in attrs}:
+        raise TranslateError('Normalizer.__init__ does not set exactly %r' % (attrs,))
+    out = ['(* generated by harness/translators/npvec.py from %s; do not edit *)' % OREL,
+           'From SKN Require Import Base.Util Model.NpExpr Model.NpVec.',
+           'From Coq Require Import String.',
+           'Local Open Scope string_scope.', '']
+    for meth in ('_matvec', '_rmatvec'):
+        fn = meths[meth]
+        if [a.arg for a in fn.args.args] != ['self', 'matrix']:
+            raise TranslateError('unexpected signature of Normalizer.%s' % meth)
+        for ndim in (1, 2):
+            tr = Tr(tree, OPS_IMPORTS)
+            tr.ndim = ndim
+            tr.self_attrs = attrs
+            tr.shape_of_self = 'adjacency'
+            mb = Tr.strip(fn.body)
+            if not isinstance(mb[-1], ast.Return):
+                raise TranslateError('Normalizer.%s does not end in return' % meth)
+
+            def no_final():
+                raise TranslateError('Normalizer method without return')
+            term = tr.block(mb, no_final)
+            for name, val in reversed(pre):
+                term = '(XLet %s %s %s)' % (_cstr(name), tr.expr(val), term)
+            nm = 'src_normalizer%s_%dd' % (meth, ndim)
+            out.append('(* %s: Normalizer(adjacency, regularization).%s(matrix), matrix.ndim == %d *)' % (OREL, meth, ndim))
+            out.append('Definition %s : vexpr :=\n  %s.' % (nm, term))
+            out.append('')
+    return '\n'.join(out)
+
+
+FILES['NpNormalizer.v'] = gen_npnormalizer
